@@ -112,3 +112,44 @@ Definition c2model_eqb (a b : c2model) : bool :=
   && forallb (fun c => existsb (c2con_eqb c) (c2_cons b)) (c2_cons a).
 
 Definition member_eqb (a b : bytes * bytes) : bool := bytes_eqb (fst a) (fst b) && bytes_eqb (snd a) (snd b).
+
+(* ---------------------------------------------------------------- the CQM header (to_file: write_header of the counts) *)
+
+Definition nat_mem (i : nat) (l : list nat) : bool := existsb (Nat.eqb i) l.
+
+(* local positions of the variables of an expression that occur in at least one interaction (degree > 0) *)
+Definition expr_quad_vars (e : exprfile) : list nat :=
+  filter (fun i => existsb (fun q => N.eqb (fst q) (N.of_nat i) || N.eqb (fst (snd q)) (N.of_nat i)) (ef_quad e))
+         (seq 0 (length (ef_idx e))).
+
+Definition var_code (vi : list vinfo) (e : exprfile) (i : nat) : N :=
+  fst (nth (N.to_nat (nth i (ef_idx e) 0%N)) vi (0%N, ([], []))).
+
+Definition is_real (vi : list vinfo) (e : exprfile) (i : nat) : bool := N.eqb (var_code vi e i) VT_REAL.
+
+Definition count_biases (e : exprfile) : nat := length (ef_idx e) + length (ef_quad e).
+Definition sumn' (l : list nat) : nat := fold_right Nat.add 0 l.
+
+Definition cqm2_counts (m : c2model) : list (string * nat) :=
+  let vi := c2_vinfo m in
+  let exprs := c2_obj m :: map c2_lhs (c2_cons m) in
+  [("num_biases", sumn' (map count_biases exprs));
+   ("num_constraints", length (c2_cons m));
+   ("num_linear_biases_real",
+      sumn' (map (fun e => length (filter (is_real vi e) (seq 0 (length (ef_idx e))))) exprs));
+   ("num_quadratic_variables", sumn' (map (fun c => length (expr_quad_vars (c2_lhs c))) (c2_cons m)));
+   ("num_quadratic_variables_real",
+      sumn' (map (fun e => length (filter (is_real vi e) (expr_quad_vars e))) exprs));
+   ("num_variables", length vi);
+   ("num_weighted_constraints", length (filter (fun c => match c2_soft c with Some _ => true | None => false end) (c2_cons m)))]%string.
+
+(* json.dumps(data, sort_keys=True) of a flat dict of non-negative integers *)
+Fixpoint pr_counts (l : list (string * nat)) : bytes :=
+  match l with
+  | [] => []
+  | [(k, v)] => 34%N :: s2b k ++ [34%N; 58%N; 32%N] ++ dec_N (N.of_nat v)
+  | (k, v) :: r => 34%N :: s2b k ++ [34%N; 58%N; 32%N] ++ dec_N (N.of_nat v) ++ [44%N; 32%N] ++ pr_counts r
+  end.
+
+Definition cqm2_header (m : c2model) : bytes :=
+  header CQM_PREFIX CQM_WRITE_VERSION (123%N :: pr_counts (cqm2_counts m) ++ [125%N]).
